@@ -36,7 +36,7 @@ KF1_WHAT = ("C48-KF1 DataFrame::aggregate(group, aggs) builds the Aggregate with
             "count(c1) AS n30 FROM t1 GROUP BY c0) GROUP BY c0 returns (c0, n31). The rows projected on (c0, n31) are equal.")
 
 
-KF2 = "C48-via-C03-KF5-column-free-join-or-filter-conjunct-pushed-below-global-aggregate"
+KF2 = "C48-via-C03-KF5-constant-folding-join-or-filter-conjunct-pushed-below-global-aggregate"
 KF2_WHAT = ("C48-KF2 (= C03-KF5 reached through a join) a conjunct of a join condition / filter that folds to a constant (e.g. "
             "CAST(NULL AS BIGINT) IN (a, b) -> NULL) is pushed by push_down_filter into an input that is an Aggregate WITHOUT GROUP BY and "
             "then BELOW that Aggregate (`cols.iter().all(..)` is vacuously true for a column-free predicate): the aggregate is computed over "
@@ -90,6 +90,16 @@ def kf5_variants(q):
                         out.append(rebuild(["join", kind, wl, wr, on2, l2, r]))
                     for r2 in _empty_global_aggs(r):
                         out.append(rebuild(["join", kind, wl, wr, on2, l, r2]))
+        if x[0] == "filter":
+            cs = conjuncts(x[1])
+            for i, X in enumerate(cs):
+                if _has(X, lambda n: n[0] == "lit" and n[1] is None) or not _has(X, lambda n: n[0] == "col"):
+                    rest = [c for j, c in enumerate(cs) if j != i]
+                    p2 = ["lit", True]
+                    for c in reversed(rest):
+                        p2 = c if p2 == ["lit", True] else ["and", c, p2]
+                    for q2 in _empty_global_aggs(x[2]):
+                        out.append(rebuild(["filter", p2, q2]))
         for i, y in enumerate(x):
             if isinstance(y, list) and y and isinstance(y[0], str) and y[0] in ("table", "values", "filter", "project", "join", "semi", "group",
                                                                                 "distinctq", "setop", "sort", "limit"):
